@@ -55,6 +55,8 @@ type GenesisConfig struct {
 	Exported bool
 	// Tombstoned: keys without a validator record whose signing info (tombstoned) is part of the genesis state
 	Tombstoned []*Actor
+	// OmitInnerAddr: signing-info records of the genesis state do not repeat the address their map key already gives
+	OmitInnerAddr bool
 }
 
 func coins(n int64) sdk.Coins { return sdk.NewCoins(sdk.NewCoin(Denom, sdk.NewInt(n))) }
@@ -108,8 +110,13 @@ func (g GenesisConfig) AppState() []byte {
 	pgs.Params = g.PosParams
 	pgs.Validators = vals
 	pgs.PrevStateTotalPower = sdk.ZeroInt()
-	for _, t := range g.Tombstoned {
-		sinfos[t.AddrHex()] = posTypes.ValidatorSigningInfo{Address: t.Addr, StartHeight: 0, JailedUntil: time.Unix(253402300799, 0).UTC(), Tombstoned: true}
+	for i, t := range g.Tombstoned {
+		si := posTypes.ValidatorSigningInfo{Address: t.Addr, StartHeight: 0, JailedUntil: time.Unix(253402300799, 0).UTC(), Tombstoned: true}
+		_ = i
+		if g.OmitInnerAddr {
+			si.Address = nil // the map key alone names the address (the record's own copy of it is optional)
+		}
+		sinfos[t.AddrHex()] = si
 	}
 	if len(sinfos) > 0 {
 		pgs.SigningInfos = sinfos
